@@ -19,7 +19,7 @@ RULE = ("plan = left frame + right frame (0..8 rows each quick / 0..20 thorough;
 CASES = {"quick": 1200, "thorough": 12000}
 
 KEY_KINDS = ["b", "i", "f", "s", "s", "u", "d", "t", "o", "oi"]
-PAY_KINDS = ["f", "i", "b", "s", "d", "o"]
+PAY_KINDS = ["f", "i", "b", "s", "d", "o", "td", "t", "ob"]
 OPS = ["left", "left", "inner", "semi", "anti", "full", "full"]
 
 
@@ -251,6 +251,9 @@ def _check_full(plan, out, ls, rs, lnames, rnames, by1, by2, lk, rk, nl, nr):
                         raise Violation("full_join: right-only row has a foreign value", column=cn, row=j, got=oc[cn][j])
                 elif cn != "_la_" and oc[cn][j] is not None:
                     raise Violation("full_join: right-only row has a left value", column=cn, row=j, got=oc[cn][j])
+    la_seq = [int(x) for x in oc["_la_"] if x is not None]
+    if la_seq != sorted(la_seq):
+        raise Violation("full_join: left rows are not in their original order", got=la_seq)
     if seen_l != set(range(nl)):
         raise Violation("full_join: left rows lost", missing=sorted(set(range(nl)) - seen_l))
     if seen_r != set(range(nr)):
